@@ -301,7 +301,9 @@ func (t *TaskInstance) Run(params interface{}, act run.Action) (err error) {
 
 // DoPreCheck
 func (t *TaskInstance) DoPreCheck(dagIns *DagInstance) (isActive bool, err error) {
-	if t.PreChecks == nil || t.IsLastState() {
+	// a task persisted as ending has already run its main action (it is being resumed
+	// after a restart): skipping or blocking it now would run the action again later
+	if t.PreChecks == nil || t.IsLastState() || t.Status == TaskInstanceStatusEnding {
 		return
 	}
 
